@@ -57,7 +57,10 @@ Statements:
   `dtype=`, `default=`), strings, floats, division `/`, `**`, `in`, `is`, any unknown call or attribute.
 Extraction rules for functions that are not pure as a whole are explicit in TARGETS: `inputs` (source
 expression -> parameter), `opaque` (parameters that may only flow into a dropped constructor field) and
-`result` (expression returned after the last statement, e.g. the attributes `__init__` has set).
+`result` (expression returned after the last statement, e.g. the attributes `__init__` has set).  An expression
+repeated inline (`to_pad = -n % d`) is extracted by the `assign-pattern` rule (class ExprTarget).
+Emitted text depends only on the AST of the target functions (no line numbers, comments or hashes), so a
+change that the text does not show is a change the translator does not see.
 """
 from __future__ import annotations
 
@@ -86,6 +89,49 @@ class Target:
         self.result = result            # python expression returned at the end (for __init__)
 
 
+class ExprTarget:
+    """Extraction rule `assign-pattern` for an expression that is repeated inline instead of living in a function:
+    EVERY assignment `<var> = <value>` of the file whose value contains the operator `op` is abstracted — maximal
+    operands that are names or `len(<name>)` become parameters a0, a1, .. in order of appearance — and all
+    occurrences must abstract to the same expression with `nparams` parameters.  That expression is translated as
+    `def <lean> (a0 a1 .. : Int) : Int`; occurrences that differ from each other are Untranslatable."""
+    def __init__(self, rel, var, lean, nparams, op=ast.Mod):
+        self.rel, self.var, self.lean, self.nparams, self.op = rel, var, lean, nparams, op
+        self.qual = f"<every `{var} = ..` with {op.__name__}>"
+
+    def function_source(self, mod):
+        occ = [n for n in ast.walk(mod.tree) if isinstance(n, ast.Assign) and len(n.targets) == 1
+               and isinstance(n.targets[0], ast.Name) and n.targets[0].id == self.var
+               and any(isinstance(x, ast.BinOp) and isinstance(x.op, self.op) for x in ast.walk(n.value))]
+        occ.sort(key=lambda n: n.lineno)
+        if not occ:
+            raise Untranslatable(self.qual, 0, f"no such assignment in {self.rel}")
+        shapes = []
+        for n in occ:
+            names = {}
+
+            class Abs(ast.NodeTransformer):
+                def operand(self, node):
+                    k = ast.unparse(node)
+                    names.setdefault(k, f"a{len(names)}")
+                    return ast.copy_location(ast.Name(id=names[k], ctx=ast.Load()), node)
+
+                def visit_Name(self, node):
+                    return self.operand(node)
+
+                def visit_Call(self, node):
+                    if ast.unparse(node.func) == "len" and len(node.args) == 1 and isinstance(node.args[0], ast.Name) and not node.keywords:
+                        return self.operand(node)
+                    return self.generic_visit(node)
+            shapes.append((ast.unparse(Abs().visit(ast.parse(ast.unparse(n.value), mode="eval").body)), len(names), n.lineno))
+        for sh, k, ln in shapes:
+            if sh != shapes[0][0] or k != self.nparams:
+                raise Untranslatable(self.qual, ln, f"occurrence `{sh}` differs from `{shapes[0][0]}` (line {shapes[0][2]}) or has {k} != {self.nparams} operands")
+        params = ", ".join(f"a{i}" for i in range(self.nparams))
+        src = f"def {self.var}({params}):\n  return {shapes[0][0]}\n"
+        return src, [ln for _, _, ln in shapes], "\n".join(ast.unparse(n) for n in occ)
+
+
 DS = "distributed_shampoo.py"
 TARGETS = [
     Target(DS, "merge_small_dims", "mergeSmallDims", [("shape_to_merge", "list[int]"), ("max_dim", "int")], "list[int]"),
@@ -105,6 +151,7 @@ TARGETS = [
            [("block_size", "int"), ("param_shape", "list[int]")],
            "tuple[list[int],int,int,list[int],list[int],list[int],int]",
            inputs={"options.block_size": "block_size"}, opaque=("debug",)),
+    ExprTarget(DS, "to_pad", "toPad", 2),
 ]
 
 LEAN_KEYWORDS = {
@@ -235,10 +282,10 @@ def proj(v, i, n):
 
 # ------------------------------------------------------------------------------------------ module context
 class Module:
-    def __init__(self, src_dir, rel):
+    def __init__(self, src_dir, rel, src=None):
         self.rel = rel
         self.path = os.path.join(src_dir, rel)
-        self.src = open(self.path).read()
+        self.src = open(self.path).read() if src is None else src
         self.tree = ast.parse(self.src, self.path)
         self.classes = {n.name: n for n in self.tree.body if isinstance(n, ast.ClassDef)}
 
@@ -915,14 +962,21 @@ def generate(src_dir=None, targets=None):
             if t.rel not in mods:
                 mods[t.rel] = Module(src_dir, t.rel)
             mod = mods[t.rel]
-            tr = FnTranslator(mod, t, known)
-            seg = ast.get_source_segment(mod.src, tr.fn) or ""
+            if isinstance(t, ExprTarget):
+                fsrc, lines, seg = t.function_source(mod)
+                ft = Target(t.rel, t.var, t.lean, [(f"a{i}", "int") for i in range(t.nparams)], "int")
+                tr = FnTranslator(Module(src_dir, t.rel, fsrc), ft, {})
+                rec["lines"] = lines
+                t = ft
+            else:
+                tr = FnTranslator(mod, t, known)
+                seg = ast.get_source_segment(mod.src, tr.fn) or ""
+                rec["lines"] = [tr.fn.lineno, tr.fn.end_lineno]
             rec["source_sha256"] = hashlib.sha256(seg.encode()).hexdigest()
-            rec["lines"] = [tr.fn.lineno, tr.fn.end_lineno]
             text, option = tr.translate()
             rty = ("option", tr.ret_ty) if option else tr.ret_ty
             known[t.qual.split(".")[-1]] = (t.lean, [parse_type(p) for _, p in t.params], rty)
-            chunks.append(f"/-- `{t.rel.replace(os.sep, '/')}::{t.qual}` -/\n" + text)
+            chunks.append(f"/-- `{rec['function'].replace(os.sep, '/')}` -/\n" + text)
         except Untranslatable as e:
             rec["error"] = {"function": e.function, "lineno": e.lineno, "construct": e.construct}
         except (OSError, SyntaxError) as e:
